@@ -1,0 +1,14 @@
+//go:build verif
+
+package lmdbenv
+
+// Contracts checked by /verif (lsvc). This file contains comments only and is
+// compiled only with the build tag "verif".
+
+// DBIExists only opens the DBI without MDB_CREATE: no change to the transaction.
+//@ func DBIExists
+//@   pure
+
+//@ func ReadDBINames
+//@   trusted
+//@   pure
